@@ -126,6 +126,7 @@ func loadProg(repoDir string, patterns []string, specDirs []string) (*Prog, erro
 			P.db.loadFile(f, strings.TrimSuffix(filepath.Base(f), ".spec"))
 		}
 	}
+	P.db.resolveLikes()
 	if len(P.db.Errors) > 0 {
 		return P, fmt.Errorf("contract errors:\n  %s", strings.Join(P.db.Errors, "\n  "))
 	}
@@ -568,8 +569,6 @@ func (P *Prog) externKeys(f *ssa.Function) map[string]bool {
 	out := map[string]bool{}
 	k := funcKey(f)
 	switch k {
-	case "encoding/binary.Read":
-		out["*"] = true
 	case "(*bytes.Buffer).ReadFrom", "(*bytes.Buffer).Write", "(*bytes.Buffer).WriteByte", "(*bytes.Buffer).WriteString", "encoding/binary.Write":
 		out["GH:$buf"] = true
 	case "crypto/rand.Read", "io.ReadFull":
